@@ -496,6 +496,8 @@ def emit(cases, results, shard=120):
             r = results[i]
             if isinstance(r, list) and r and isinstance(r[0], dict) and 'harness_error' in r[0]:
                 continue          # reported by core as a broken correspondence
+            if cases[i].get('oracle_only'):
+                continue          # behaviour outside the model (named in the property module): decided by the oracle alone
             terms.append(em.case(cases[i], r))
             idx.append(i)
         shards.append((em.I.defs, terms, idx))
